@@ -126,7 +126,7 @@ func decodeModelValue(v string, s Sort) string {
 	}
 }
 
-func (ex *Exec) recordViolation(label, msg string, negCond *Term) {
+func (ex *Exec) recordViolation(label, msg string, negCond *Term) (found bool) {
 	// known-finding regions for this (harness,label)
 	var regionTerm *Term
 	var knownID string
@@ -161,6 +161,7 @@ func (ex *Exec) recordViolation(label, msg string, negCond *Term) {
 		// inside region => known finding
 		r, m := ex.modelOf(append(extra, regionTerm)...)
 		if r == Sat {
+			found = true
 			ex.viols = append(ex.viols, Violation{Label: label, Harness: ex.harness, Msg: msg, Model: m, Decisions: append([]Dec(nil), ex.decisions[:ex.pos]...), Known: knownID, Stack: st})
 		} else if r == Unknown {
 			ex.end("unknown", "solver unknown while checking known-finding region for "+label)
@@ -170,10 +171,12 @@ func (ex *Exec) recordViolation(label, msg string, negCond *Term) {
 	r, m := ex.modelOf(extra...)
 	switch r {
 	case Sat:
+		found = true
 		ex.viols = append(ex.viols, Violation{Label: label, Harness: ex.harness, Msg: msg, Model: m, Decisions: append([]Dec(nil), ex.decisions[:ex.pos]...), Stack: st})
 	case Unknown:
 		ex.end("unknown", "solver unknown while checking assertion "+label)
 	}
+	return found
 }
 
 func (ex *Exec) finalModel() (map[string]string, []ObsVal) {
@@ -293,14 +296,18 @@ func registerExterns(e *Engine) {
 				ex.end("violated", "assertion failed (concrete): "+label)
 			}
 		case SymBool:
-			ex.recordViolation(label, "assertion failed", Not(c.T))
-			// continue under the assumption that it held
-			r := ex.sol.Check(c.T)
-			if r == Unsat {
-				ex.end("violated", "assertion always fails here: "+label)
+			if v, ok := ex.known[c.T.S]; ok && v {
+				return nil
 			}
-			if r == Unknown {
-				ex.end("unknown", "solver unknown after assertion")
+			if ex.recordViolation(label, "assertion failed", Not(c.T)) {
+				// continue under the assumption that it held
+				r := ex.sol.Check(c.T)
+				if r == Unsat {
+					ex.end("violated", "assertion always fails here: "+label)
+				}
+				if r == Unknown {
+					ex.end("unknown", "solver unknown after assertion")
+				}
 			}
 			ex.addPC(c.T)
 		}
